@@ -28,7 +28,8 @@ code) and are reasoned about over an ordered field.
 `order1` is the REPAIRED code (proposed_fixes/C14-order1-psph-reset.diff):
 `initialize` resets all four components of `p_sph`/`prop`; the pinned code reset
 only three, so `p_sph[4i+3]` kept accumulating over `interpolate` calls.
-`solve` is `gj_solve` of linalg.py (Model/GaussJordan.lean), a parameter here.
+The linear solver is `gj_solve` of linalg.py (`gjSolve` of Model/GaussJordan.lean,
+property C13).
 Core Lean only.
 -/
 namespace PysphVerif.Interp
@@ -170,11 +171,12 @@ variable {α : Type} [Add α] [Mul α] [Div α] [Neg α] [OfNat α 0] [OfNat α 
 /-- `SPHFirstOrderApproximation.post_loop` from `a_mat`, `b` on:
 `aug_mat = 0; res = 0; n = dim+1; augmented_matrix(a_mat, b, n, 1, 4, aug_mat);
 gj_solve(aug_mat, n, 1, res); d_prop[4*d_idx + i] = res[i]` — the four numbers
-left in `d_prop`.  (`gj_solve` of the pinned tree: `gjSolveOrig`.) -/
+left in `d_prop`.  (`gj_solve` after `fix: gj_solve exchanges whole rows when
+pivoting`: `gjSolve`.) -/
 def order1Post (tol : α) (dim : Nat) (aMat b : Array α) : Array α :=
   let n := dim + 1
   let aug := GaussJordan.augmentedMatrix aMat b n 1 4 (Array.replicate 20 0)
-  (GaussJordan.gjSolveOrig tol aug n 1 (Array.replicate 4 0)).result
+  (GaussJordan.gjSolve tol aug n 1 (Array.replicate 4 0)).result
 
 end
 
